@@ -19,7 +19,12 @@ def tok(ins):
     if k == "thread": return "t%d" % ins[1]
     if k == "waitthread": return "T%d" % ins[1]
     if k == "pause": return "p"
-    if k == "end": return "e" if ins[1] is None else "e%d" % ins[1]
+    if k == "end":
+        if ins[1] is None: return "e"
+        if isinstance(ins[1], tuple): return "eP%d" % ins[1][1]
+        return "e%d" % ins[1]
+    if k == "pparam": return "P%d" % ins[1]
+    if k == "params": return "(%d)" % ins[1]
     raise ValueError(ins)
 
 
@@ -45,14 +50,22 @@ def stmt(ins):
     if k == "thread": return "thread t%d" % ins[1]
     if k == "waitthread": return "waitthread t%d" % ins[1]
     if k == "pause": return "pause"
-    if k == "end": return "end" if ins[1] is None else "end %d" % ins[1]
+    if k == "end":
+        if ins[1] is None: return "end"
+        if isinstance(ins[1], tuple): return "end local.p%d" % ins[1][1]
+        return "end %d" % ins[1]
+    if k == "pparam": return 'println "p" local.p%d' % ins[1]
     raise ValueError(ins)
 
 
 def render(prog):
     out = []
     for i, body in enumerate(prog):
-        out.append("t%d:" % i)
+        if body and body[0][0] == "params":
+            out.append("t%d %s:" % (i, " ".join("local.p%d" % j for j in range(body[0][1]))))
+            body = body[1:]
+        else:
+            out.append("t%d:" % i)
         out += [stmt(x) for x in body]
         if not body or body[-1][0] != "end":
             out.append("end")
@@ -153,4 +166,69 @@ def gen_case(rng, prog, ncalls=None, nsteps=None):
     lines.append("step 1000")
     lines.append("step 1000")
     lines.append("thread-result")
+    return lines
+
+
+WORDS = ["a", "zz", "hey", "", "nil", "x y"]
+
+
+def gen_arg(rng):
+    r = rng.random()
+    if r < 0.4:
+        return "i%d" % rng.choice([0, 1, 5, 42, 70000, 123456789])
+    if r < 0.8:
+        return "s" + rng.choice(WORDS).encode().hex()
+    return "n"
+
+
+def gen_call_prog(rng):
+    """C05: labels with 0..8 declared parameters that print them, then finish synchronously, after k
+    timed waits, after being woken by another call, or never (paused / killed through endon)."""
+    nl = rng.randint(2, 4)
+    mk = Marks()
+    prog = [[("spawn", 1), mk.next()]]
+    for i in range(1, nl):
+        k = rng.randint(0, 8)
+        body = [("params", k)] + [("pparam", j) for j in range(k)]
+        mode = rng.choice(["sync", "waits", "waittill", "pause", "endon"])
+        if mode == "waits":
+            for _ in range(rng.randint(1, 3)):
+                body += [("wait", rng.choice(DURS)), mk.next()]
+        elif mode == "waittill":
+            body += [("waittill", 1, [1]), mk.next()]
+        elif mode == "pause":
+            body += [("pause",), mk.next()]
+        elif mode == "endon":
+            body += [("endon", 1, 2), ("wait", 500), mk.next()]
+        r = rng.random()
+        if r < 0.3:
+            body.append(("end", None))
+        elif r < 0.6 or k == 0:
+            body.append(("end", rng.choice([0, 7, 42])))
+        else:
+            body.append(("end", ("param", rng.randrange(k))))
+        prog.append(body)
+    # a notifier label
+    prog.append([mk.next(), ("notify", 1, rng.choice([1, 2])), mk.next()])
+    return prog
+
+
+def gen_call_case(rng):
+    prog = gen_call_prog(rng)
+    lines = ["reset", script_line(prog), "call m t0"]
+    for _ in range(rng.randint(2, 6)):
+        r = rng.random()
+        if r < 0.55:
+            l = rng.randrange(1, len(prog) - 1)
+            lines.append("call m t%d %s" % (l, " ".join(gen_arg(rng) for _ in range(rng.randint(0, 8)))))
+            lines.append("thread-result")
+        elif r < 0.7:
+            lines.append("call m t%d" % (len(prog) - 1))
+            lines.append("thread-result")
+        elif r < 0.8:
+            lines.append("call m t%d" % (len(prog) + rng.randint(0, 3)))      # label not found
+        else:
+            lines.append("step %d" % rng.choice(STEPS))
+            lines.append("thread-result")
+    lines += ["step 1000", "thread-result", "step 1000", "thread-result"]
     return lines
